@@ -531,11 +531,12 @@ class Run:
     def make_sched(self, entry, n):
         from ribs.emitters import GaussianEmitter
         from ribs.schedulers import BanditScheduler, Scheduler
+        import faultlib
         sd = self.case.get("sol_dim", 2)
-        em = [GaussianEmitter(self.archive, sigma=0.5, x0=np.zeros(sd), batch_size=n, seed=1)]
+        em = faultlib.sched_emitters(self.archive, n, sd)
         if entry == "sched_tell":
             return Scheduler(self.archive, em)
-        return BanditScheduler(self.archive, em, num_active=1)
+        return BanditScheduler(self.archive, em, num_active=len(em))
 
     def do_bad(self, op, where):
         import faultlib
